@@ -480,3 +480,48 @@ REQ_HANDOFF = [
 def r7(ctx):
     for r in handoff_results(ctx, "C05-R7", REQ_HANDOFF, VIOL, PASS, site, "the signed-header requirements enforced are not the ones the server configured"):
         yield r
+
+
+@M.rule("C05-R8", "wrappers around the entry point hand the caller's configuration on unchanged")
+def r_wrappers(ctx):
+    for r in wrapper_results(ctx, "C05-R8", (5,), VIOL, PASS, "the requirement set enforced is not the caller's"):
+        yield r
+
+
+REQ_FIELDS = ("always_present", "if_in_request", "prefixes")
+REQ_WRITERS = r"^canonical::VecSignedHeaderRequirements::(add_always_present|add_if_in_request|add_prefix|remove_always_present|remove_if_in_request|remove_prefix|new)$"
+
+
+@M.rule("C05-R9", "who writes the requirement lists: the reviewed add_/remove_ methods, and nobody adds under a condition on the set's own content")
+def r9(ctx):
+    """A second way to build a requirement set (`merge`, `from_requirements`, `extend`) decides what is enforced just like
+    add_* does (C05-R5). Direct writes to the three lists outside the reviewed methods are reported; so is a call of add_*
+    that is skipped under a condition computed from the set's own lists (`if !self.is_enforced(h)`: an always-required
+    name dropped because a *prefix* covers it is no longer required when the header is absent)."""
+    n = 0
+    bad = 0
+    for body in ctx.facts.all_bodies():
+        if body.kind not in ("Fn", "AssocFn", "Closure") or re.search(REQ_WRITERS, re.sub(r"::\{closure#\d+\}$", "", body.path)):
+            continue
+        if "VecSignedHeaderRequirements" not in body.path and not body.calls(r"VecSignedHeaderRequirements::add_\w+$"):
+            continue
+        for bi, t in body.calls(r"Vec::<T, A>::(push|insert|extend\w*|append|retain\w*|remove|clear|truncate|drain|dedup\w*|sort\w*)$|Extend::extend$"):
+            sl = body.slice_op(t["args"][0])
+            if any(fs and fs[-1] in REQ_FIELDS for _, fs in sl.fieldreads) and "Cow<" in " ".join(t.get("arg_tys", [])[:1]) + t.get("resolved_full", ""):
+                n += 1
+                bad += 1
+                yield VIOL("C05-R9", "%s/direct-list-write" % body.path, "`%s` writes a requirement list directly (`%s`), outside the reviewed add_/remove_ methods" % (body.path, t["callee"].split("::")[-1]), where=body.span_of_block(bi))
+        for bi, t in body.calls(r"VecSignedHeaderRequirements::add_\w+$"):
+            n += 1
+            for a, s_, c, truth in guard_conditions(body, bi):
+                if c["kind"] != "call":
+                    continue
+                csl = body.slice([c["term"]["dest"]["local"]])
+                own = any(fs and fs[-1] in REQ_FIELDS for _, fs in csl.fieldreads) or any(re.search(r"VecSignedHeaderRequirements::\w+$|SignedHeaderRequirements>::\w+$", x) and 1 in body.slice_op(tt["args"][0]).locals for x, tt in [(tt_["callee"], tt_) for _, tt_ in csl.calls] if tt["args"])
+                if own and not re.search(r"Iterator::next$", c["callee"]):
+                    bad += 1
+                    yield VIOL("C05-R9", "%s/conditional-add" % body.path, "`%s` is skipped under a condition computed from the set's own content (`%s`): a requirement the caller declared is silently not enforced" % (t["callee"].split("::")[-1], c["callee"].split("::")[-1]), where=body.span_of_block(bi))
+                    break
+    ctx.count(max(1, n))
+    if not bad:
+        yield PASS("C05-R9", "requirement-lists/writers", "the three lists are written by the reviewed add_/remove_ methods only (%d other call sites of add_*, none conditional on the set)" % n, [])
